@@ -366,8 +366,16 @@ func (d c12) executeAPI(c *core.Case) (res *core.Result) {
 		after, _ := world.WalkRSLGit(repo, rsl.Ref)
 		switch {
 		case err == nil:
-			outcomes = append(outcomes, "apply-nondescendant:accepted")
-			res.Violate("C12", "applied-non-descendant", fmt.Sprintf("Apply published staged commit %s, which does not descend from the applied policy commit %s", short10(orphan), short10(polTip)), 0, "engine=git")
+			// Apply reconciles staging first: it may have re-committed the staged content on top of
+			// the applied policy. What counts is what the policy ref holds now.
+			now := repo.GetRef(policyRef)
+			if _, aerr := repo.Git(nil, "merge-base", "--is-ancestor", polTip, now); aerr != nil {
+				outcomes = append(outcomes, "apply-nondescendant:published")
+				res.Violate("C12", "applied-non-descendant", fmt.Sprintf("after Apply refs/gittuf/policy is %s, which does not descend from the previously applied policy commit %s (staging held the unrelated commit %s)", short10(now), short10(polTip), short10(orphan)), 0, "engine=git")
+			} else {
+				outcomes = append(outcomes, "apply-nondescendant:reconciled")
+				res.Stat("probe:api_apply_reconciled_non_descendant_staging", 1)
+			}
 		case c12RefsDigest(repo) != before || len(after) != len(nEntries):
 			outcomes = append(outcomes, "apply-nondescendant:refused-but-changed")
 			res.Violate("C12", "failed-apply-changed-refs", fmt.Sprintf("Apply refused a non-descendant staged state (%v) but references or the log changed", err), 0, "engine=git")
